@@ -347,7 +347,39 @@ class _Inliner:
             self.local_funcs = {}
             if self.done == before:
                 break
+        if self.done:
+            self._drop_inlined_helpers()
         return self.done
+
+    def _drop_inlined_helpers(self):
+        """A transparent private helper whose every use was inlined is no analysis unit any more: remove its definition, so that
+        rules that scan all functions see its statements once - in the caller - and not a second time on their own."""
+        def eligible_defs():
+            for n in self.tree.body:
+                if isinstance(n, ast.FunctionDef) and (_eligible(n, self.anchored) or _eligible_generator(n, self.anchored) is not None):
+                    yield self.tree.body, n
+                elif isinstance(n, ast.ClassDef):
+                    for m in n.body:
+                        if isinstance(m, ast.FunctionDef) and (_eligible(m, self.anchored) or _eligible_generator(m, self.anchored) is not None):
+                            yield n.body, m
+        for _ in range(3):
+            removed = False
+            for holder, fn in list(eligible_defs()):
+                used = False
+                for x in ast.walk(self.tree):
+                    if _inside_def(x, fn):
+                        continue
+                    if (isinstance(x, ast.Name) and x.id == fn.name) or (isinstance(x, ast.Attribute) and x.attr == fn.name) or \
+                            (isinstance(x, ast.Constant) and isinstance(x.value, str) and x.value == fn.name):
+                        used = True
+                        break
+                if not used and fn in holder:
+                    holder.remove(fn)
+                    if not holder:
+                        holder.append(ast.copy_location(ast.Pass(), fn))
+                    removed = True
+            if not removed:
+                break
 
     def _block(self, stmts, cls, selfname, owner):
         out = []
@@ -388,11 +420,25 @@ class _Inliner:
             a.value.args, b.value.args = [cond.body], [copy.deepcopy(cond.orelse)]
             new = ast.copy_location(ast.If(test=cond.test, body=[a], orelse=[b]), st)
             return self._stmt(new, cls, selfname, owner)
+        # `if A and B(helper(..)): X [else: Y]`: the helper call sits behind a short circuit; as nested ifs it is the test of its own
+        # statement (Y is repeated, so only small else blocks)
+        if (isinstance(st, ast.If) and isinstance(st.test, ast.BoolOp) and isinstance(st.test.op, ast.And) and len(st.test.values) >= 2
+                and not self._has_target(st.test.values[0], cls, selfname, owner)
+                and any(self._has_target(v, cls, selfname, owner) for v in st.test.values[1:])
+                and sum(1 for s_ in st.orelse for _ in ast.walk(s_)) <= 40):
+            rest = st.test.values[1:]
+            inner_test = rest[0] if len(rest) == 1 else ast.copy_location(ast.BoolOp(op=ast.And(), values=rest), st.test)
+            inner = ast.copy_location(ast.If(test=inner_test, body=st.body, orelse=copy.deepcopy(st.orelse)), st)
+            outer = ast.copy_location(ast.If(test=st.test.values[0], body=[inner], orelse=st.orelse), st)
+            ast.fix_missing_locations(outer)
+            return self._stmt(outer, cls, selfname, owner)
         # expressions evaluated exactly once, before the statement's own effect
         if isinstance(st, (ast.Assign, ast.AnnAssign, ast.AugAssign, ast.Return, ast.Expr)):
             holder, field = st, "value"
         elif isinstance(st, ast.If):
             holder, field = st, "test"
+        elif isinstance(st, ast.For):
+            holder, field = st, "iter"  # the iterable is evaluated once, before the first round
         else:
             return [st]
         expr = getattr(holder, field)
@@ -908,6 +954,12 @@ class _TableSearch(ast.NodeTransformer):
                     and all(isinstance(e, ast.Constant) or (isinstance(e, (ast.Tuple, ast.List)) and all(isinstance(y, ast.Constant) for y in e.elts))
                             for e in st.value.elts)):
                 cands[st.targets[0].id] = st.value
+            elif (isinstance(st, ast.Assign) and len(st.targets) == 1 and isinstance(st.targets[0], ast.Name) and isinstance(st.value, ast.Tuple)
+                    and st.value.elts and all(_pure_row(e) for e in st.value.elts)
+                    and all(stores.get(x.id, 0) <= 1 for e in st.value.elts for x in ast.walk(e) if isinstance(x, ast.Name))):
+                # rows computed from single-assignment locals / parameters (candidate paths, say): evaluating a row where the loop
+                # uses it gives the same value, and `/`, attribute reads and arithmetic on them have no effects
+                cands[st.targets[0].id] = st.value
         for k, v in cands.items():
             uses = [x for x in _walk_own_deep(node) if isinstance(x, ast.Name) and x.id == k and isinstance(x.ctx, ast.Load)]
             only_iterated = True
@@ -1345,6 +1397,18 @@ def _walk_own_deep(fn):
         if isinstance(n, (ast.FunctionDef, ast.AsyncFunctionDef, ast.ClassDef, ast.Lambda)):
             continue
         stack.extend(ast.iter_child_nodes(n))
+
+
+_DEF_MEMBERS = {}
+
+
+def _inside_def(node, fn) -> bool:
+    ids = _DEF_MEMBERS.get(id(fn))
+    if ids is None or ids[0] is not fn:
+        ids = (fn, {id(x) for x in ast.walk(fn)})
+        _DEF_MEMBERS.clear()
+        _DEF_MEMBERS[id(fn)] = ids
+    return id(node) in ids[1]
 
 
 def _inside(node, fn) -> bool:
